@@ -173,13 +173,26 @@ class Run:
             def pairs():
                 cur = HandlerCollection.current.get()
                 return [] if cur is None else [(id(a), id(b)) for a, b in cur.handler_pairs]
-            if self.uni.gen is None and op.get("how", "next") != "next":
+            how = op.get("how", "next")
+            if how in ("short-start", "short-end"):
+                # a generator that is started at one moment and runs to its end at another (other probes may have
+                # been activated / deactivated in between): whoever advances it keeps its context
+                short = getattr(self.uni, "shortgen", None)
+                before_pairs = pairs()
+                if how == "short-start" or short is None:
+                    self.uni.shortgen = self.uni.mod.hgen(2)
+                    next(self.uni.shortgen)
+                else:
+                    for _ in short:
+                        pass
+                    self.uni.shortgen = None
+                return {"context_same": pairs() == before_pairs}
+            if self.uni.gen is None and how != "next":
                 self.uni.gen = self.uni.mod.hgen(10 ** 6)
                 next(self.uni.gen)
             before_pairs = pairs()
             if self.uni.gen is None:
                 self.uni.gen = self.uni.mod.hgen(10 ** 6)
-            how = op.get("how", "next")
             if how == "next":
                 next(self.uni.gen)
             elif how == "close":
